@@ -12,6 +12,7 @@ package pilosa_test
 // Close must be identical right after the Open.
 
 import (
+	"io"
 	"context"
 	"crypto/sha1"
 	"encoding/json"
@@ -161,11 +162,95 @@ type c08Inst struct {
 	seen        []string // digests of the batteries observed at the restart points (evidence only)
 }
 
+// c08Loop is the node's InternalClient: with key translation the API forwards every import to the shard
+// owner THROUGH the internal client even on a single node (api.Import: "if local node owns this shard we
+// don't need to go through the client" is a TODO). Without a transport those imports would silently do
+// nothing; this loop-back hands them to the same API the HTTP handler would call. Everything else a
+// single static node never sends is a no-op.
+type c08Loop struct{ in *c08Inst }
+
+func (l c08Loop) Import(ctx context.Context, index, field string, shard uint64, bits []pilosa.Bit, opts ...pilosa.ImportOption) error {
+	req := &pilosa.ImportRequest{Index: index, Field: field, Shard: shard}
+	ts := false
+	for _, b := range bits {
+		req.RowIDs = append(req.RowIDs, b.RowID)
+		req.ColumnIDs = append(req.ColumnIDs, b.ColumnID)
+		req.Timestamps = append(req.Timestamps, b.Timestamp)
+		ts = ts || b.Timestamp != 0
+	}
+	if !ts {
+		req.Timestamps = nil
+	}
+	return l.in.api.Import(ctx, req, opts...)
+}
+func (l c08Loop) ImportValue(ctx context.Context, index, field string, shard uint64, vals []pilosa.FieldValue, opts ...pilosa.ImportOption) error {
+	req := &pilosa.ImportValueRequest{Index: index, Field: field, Shard: shard}
+	for _, v := range vals {
+		req.ColumnIDs = append(req.ColumnIDs, v.ColumnID)
+		req.Values = append(req.Values, v.Value)
+	}
+	return l.in.api.ImportValue(ctx, req, opts...)
+}
+func (l c08Loop) ImportK(ctx context.Context, index, field string, bits []pilosa.Bit, opts ...pilosa.ImportOption) error {
+	return nil
+}
+func (l c08Loop) ImportValueK(ctx context.Context, index, field string, vals []pilosa.FieldValue, opts ...pilosa.ImportOption) error {
+	return nil
+}
+func (l c08Loop) MaxShardByIndex(context.Context) (map[string]uint64, error) { return nil, nil }
+func (l c08Loop) Schema(ctx context.Context) ([]*pilosa.IndexInfo, error)      { return nil, nil }
+func (l c08Loop) PostSchema(ctx context.Context, uri *pilosa.URI, s *pilosa.Schema, remote bool) error {
+	return nil
+}
+func (l c08Loop) CreateIndex(ctx context.Context, index string, opt pilosa.IndexOptions) error { return nil }
+func (l c08Loop) FragmentNodes(ctx context.Context, index string, shard uint64) ([]*pilosa.Node, error) {
+	return nil, nil
+}
+func (l c08Loop) Nodes(ctx context.Context) ([]*pilosa.Node, error) { return nil, nil }
+func (l c08Loop) Query(ctx context.Context, index string, queryRequest *pilosa.QueryRequest) (*pilosa.QueryResponse, error) {
+	return nil, nil
+}
+func (l c08Loop) QueryNode(ctx context.Context, uri *pilosa.URI, index string, queryRequest *pilosa.QueryRequest) (*pilosa.QueryResponse, error) {
+	return nil, nil
+}
+func (l c08Loop) EnsureIndex(ctx context.Context, name string, options pilosa.IndexOptions) error { return nil }
+func (l c08Loop) EnsureField(ctx context.Context, indexName string, fieldName string) error      { return nil }
+func (l c08Loop) EnsureFieldWithOptions(ctx context.Context, index, field string, opt pilosa.FieldOptions) error {
+	return nil
+}
+func (l c08Loop) ExportCSV(ctx context.Context, index, field string, shard uint64, w io.Writer) error {
+	return nil
+}
+func (l c08Loop) CreateField(ctx context.Context, index, field string) error { return nil }
+func (l c08Loop) CreateFieldWithOptions(ctx context.Context, index, field string, opt pilosa.FieldOptions) error {
+	return nil
+}
+func (l c08Loop) FragmentBlocks(ctx context.Context, uri *pilosa.URI, index, field, view string, shard uint64) ([]pilosa.FragmentBlock, error) {
+	return nil, nil
+}
+func (l c08Loop) BlockData(ctx context.Context, uri *pilosa.URI, index, field, view string, shard uint64, block int) ([]uint64, []uint64, error) {
+	return nil, nil, nil
+}
+func (l c08Loop) ColumnAttrDiff(ctx context.Context, uri *pilosa.URI, index string, blks []pilosa.AttrBlock) (map[uint64]map[string]interface{}, error) {
+	return nil, nil
+}
+func (l c08Loop) RowAttrDiff(ctx context.Context, uri *pilosa.URI, index, field string, blks []pilosa.AttrBlock) (map[uint64]map[string]interface{}, error) {
+	return nil, nil
+}
+func (l c08Loop) SendMessage(ctx context.Context, uri *pilosa.URI, msg []byte) error { return nil }
+func (l c08Loop) RetrieveShardFromURI(ctx context.Context, index, field, view string, shard uint64, uri pilosa.URI) (io.ReadCloser, error) {
+	return nil, nil
+}
+func (l c08Loop) ImportRoaring(ctx context.Context, uri *pilosa.URI, index, field string, shard uint64, remote bool, req *pilosa.ImportRoaringRequest) error {
+	return nil
+}
+
 func (in *c08Inst) open() error {
 	uri, _ := pilosa.NewURIFromAddress("localhost:10101")
 	s, err := pilosa.NewServer(pilosa.OptServerDataDir(in.dir), pilosa.OptServerAttrStoreFunc(boltdb.NewAttrStore),
 		pilosa.OptServerNodeID("n0"), pilosa.OptServerIsCoordinator(true), pilosa.OptServerURI(uri),
-		pilosa.OptServerClusterDisabled(true, nil), pilosa.OptServerSerializer(proto.Serializer{}))
+		pilosa.OptServerClusterDisabled(true, nil), pilosa.OptServerSerializer(proto.Serializer{}),
+		pilosa.OptServerInternalClient(c08Loop{in}))
 	if err != nil {
 		return err
 	}
@@ -347,6 +432,21 @@ func (in *c08Inst) do(op string) string {
 		}
 		if cf.Type == "time" {
 			req.Timestamps = []int64{1520139600 * 1e9, 0} // 2018-03-04T05:00 in ns, and no timestamp
+		}
+		// the first pair once more at the end: with keys, a batch that repeats a NEW key after a newer
+		// one (ids 1,2,1 in one translate-log entry)
+		if len(req.RowKeys) > 0 {
+			req.RowKeys = append(req.RowKeys, req.RowKeys[0])
+		} else {
+			req.RowIDs = append(req.RowIDs, req.RowIDs[0])
+		}
+		if len(req.ColumnKeys) > 0 {
+			req.ColumnKeys = append(req.ColumnKeys, req.ColumnKeys[0])
+		} else {
+			req.ColumnIDs = append(req.ColumnIDs, req.ColumnIDs[0])
+		}
+		if len(req.Timestamps) > 0 {
+			req.Timestamps = append(req.Timestamps, req.Timestamps[0])
 		}
 		return e(in.api.Import(ctx, req))
 	case "rattr":
@@ -617,9 +717,20 @@ type c08Mismatch struct {
 // c08Run executes ops with a restart after the positions in mask (bit k = after op k); the last position is
 // always restarted. Every restart is judged on its own (before vs after), so a mismatch does not end the
 // history: the state after a restart is whatever the real code loaded, and the next restart must preserve THAT.
+// c08LastFinal: the battery taken before the LAST restart of the most recent c08Run in this process
+// ("" when a restart failed). Two runs of the same operations with different restart placements must
+// agree on it: a restart is transparent to everything that happens afterwards.
+var c08LastFinal string
+
 func c08Run(cf c08Config, ops []int, mask int) (out []c08Mismatch, path []vx.Op, restarts int) {
 	in := c08New(cf)
 	defer in.destroy()
+	c08LastFinal = ""
+	defer func() {
+		if in.srv != nil {
+			c08LastFinal = in.lastBattery
+		}
+	}()
 	for k, oi := range ops {
 		path = append(path, vx.Op{Name: c08Ops[oi]})
 		in.do(c08Ops[oi])
@@ -689,8 +800,10 @@ func TestVerif_C08(t *testing.T) {
 		if len(u.ops) > 1 {
 			masks = append(masks, 1<<uint(len(u.ops))-1)
 		}
+		finals := map[int]string{}
 		for _, m := range masks {
 			mm, path, restarts := c08Run(cf, u.ops, m)
+			finals[m] = c08LastFinal
 			c.AddEval(1)
 			c.AddStates(int64(restarts))
 			c.AddTransitions(int64(len(path)))
@@ -737,6 +850,28 @@ func TestVerif_C08(t *testing.T) {
 				key := fmt.Sprintf("restart-changes what=%s config=%s", what, cls)
 				// Case: the op list (so shorter histories win); the configuration goes into got/want
 				c.Violate(key, x.path, fmt.Sprintf("[%s] after restart: %s", cf, gl), fmt.Sprintf("before restart: %s", wl))
+			}
+		}
+		// restart transparency: the same operations with a restart after EVERY operation must reach the
+		// same observable state (taken before the final restart) as with no intermediate restart
+		if len(masks) == 2 && finals[masks[0]] != "" && finals[masks[1]] != "" && finals[masks[0]] != finals[masks[1]] {
+			again := true
+			for r := 0; r < 2 && again; r++ { // believed only if it reproduces twice more
+				c08Run(cf, u.ops, masks[0])
+				a := c08LastFinal
+				c08Run(cf, u.ops, masks[1])
+				again = a == finals[masks[0]] && c08LastFinal == finals[masks[1]]
+			}
+			if again {
+				what, gl, wl := c08Diff(finals[masks[1]], finals[masks[0]])
+				var path []vx.Op
+				for _, oi := range u.ops {
+					path = append(path, vx.Op{Name: c08Ops[oi]})
+				}
+				c.Violate(fmt.Sprintf("restart-not-transparent what=%s config=%s", what, cf.class()), path,
+					fmt.Sprintf("[%s] with a restart after every operation: %s", cf, gl), fmt.Sprintf("with no intermediate restart: %s", wl))
+			} else {
+				c.Outcome("flaky restart-not-transparent")
 			}
 		}
 		for h := range c08Batteries {
